@@ -116,6 +116,18 @@ def r19_2(run):
             continue
         for c2 in calls_in(u2, 'self._timeout_delayed_call.cancel'):
             run.ob('R19.2', u2, c2, 'the launch timeout is cancelled only on success', False, slot='cancel@%s' % u2.short, message='%s cancels the launch timeout' % u2.short)
+    # the deadline is never moved: nothing postpones or re-arms the launch timeout (a failed connection attempt, output on
+    # stderr ... are no reason to give Tor more time than the caller allowed)
+    for u2 in class_units(run.idx, pp):
+        for c2 in calls_in(u2):
+            if dotted(c2.func) in ('self._timeout_delayed_call.reset', 'self._timeout_delayed_call.delay'):
+                run.ob('R19.2', u2, c2, 'the launch deadline is never postponed', False, slot='deadline-moved@%s' % u2.short,
+                       message='%s calls %s: at the deadline the caller gave, the launch has neither failed nor has Tor been told to terminate' % (u2.short, src(c2)[:50]))
+        if u2.name != '__init__':
+            for st, v in writes_of(u2, 'self._timeout_delayed_call'):
+                if not is_none(v):
+                    run.ob('R19.2', u2, st, 'the launch timeout is armed once, in the constructor', False, slot='timeout-rearmed@%s' % u2.short,
+                           message='%s re-arms the launch timeout (%s)' % (u2.short, src(v)[:40]))
     defs = local_defs(sc)
     pd = defs.get(PROG, [])
     kwn = names_defined_by(sc, lambda v: isinstance(v, ast.Call) and (dotted(v.func) or '').endswith('find_keywords'))
@@ -328,6 +340,7 @@ RULES = [
 from ..selftest import M  # noqa: E402
 F = 'txtorcon/controller.py'
 MUTANTS = [
+    M('retry-resets-deadline', F, "        log.err(failure)\n        self.attempted_connect = False\n", "        log.err(failure)\n        self.attempted_connect = False\n        if self._timeout_delayed_call is not None and self._timeout_delayed_call.active():\n            self._timeout_delayed_call.reset(30)\n", ['R19.2']),
     M('ownership-once-flag', F, "        yield self.tor_protocol.queue_command('TAKEOWNERSHIP')\n        yield self.tor_protocol.queue_command('RESETCONF __OwningControllerProcess')", "        if not getattr(self, '_own', False):\n            self._own = True\n            yield self.tor_protocol.queue_command('TAKEOWNERSHIP')\n            yield self.tor_protocol.queue_command('RESETCONF __OwningControllerProcess')", ['R19.2']),
     M('config-datadir-treated-temporary', F, "        data_directory = tempfile.mkdtemp(prefix='tortmp')\n        config.DataDirectory = data_directory\n", "        try:\n            data_directory = config.DataDirectory\n        except KeyError:\n            data_directory = tempfile.mkdtemp(prefix='tortmp')\n            config.DataDirectory = data_directory\n", ['R19.4']),
     M('takeownership-not-awaited', F, "        yield self.tor_protocol.queue_command('TAKEOWNERSHIP')", "        self.tor_protocol.queue_command('TAKEOWNERSHIP')", ['R19.5', 'R19.2']),
